@@ -416,6 +416,10 @@ func GenFleet(prof *fleetProfile) func(r *engine.PRNG, run int, tier string) *en
 			g.opsLeft = r.Range(40, prof.maxOps)
 		default: // a long history: many compactions, array growths, pages, collapses
 			g.opsLeft = r.Range(5*prof.maxOps, 15*prof.maxOps)
+			switch prof.prop {
+			case "C12", "C14", "C15", "C16", "C08": // a full snapshot (or a sweep) after every event: keep the quadratic cost bounded
+				g.opsLeft = r.Range(3*prof.maxOps, 6*prof.maxOps)
+			}
 			p.Config["history"] = "long"
 		}
 		nNodes := r.Range(prof.minNodes, prof.maxNodes)
